@@ -304,8 +304,8 @@ Definition may_spawn (s : state) (t by_ : task) : bool :=
   negb (mem_task t (spawned s)) && runs (ph s by_) &&
   match ph s t with PAbsent => true | _ => false end &&
   match t, by_ with
-  | TWatcher _, TRoot ROrch => true
-  | TKeepalive _, TRoot ROrch => true
+  | TWatcher _, TRoot ROrch => negb (ostopped s)     (* once in `except CancelledError: aiotasks.stop(...)` *)
+  | TKeepalive _, TRoot ROrch => negb (ostopped s)   (* the orchestrator adjusts no tasks any more *)
   | TWorker w _, TWatcher w' => Nat.eqb w w'
   | TDaemon _, TWorker _ _ => true
   | _, _ => false
@@ -581,7 +581,7 @@ Definition internal_candidates (s : state) : list label :=
   ++ flat_map (fun t => match ph s t with
                         | PEnding o => [Finish t o]
                         | PCancelW => [Finish t OCancelled]
-                        | PRun => [Finish t OOk]
+                        | PRun => if is_daemon t then [] else [Finish t OOk]   (* a daemon returning is user code *)
                         | _ => [] end) (root_tasks ++ TAuth :: TWaiter :: spawned s)
   ++ flat_map (fun t => match t with
                         | TKeepalive k => [Withdraw k]
@@ -597,3 +597,100 @@ Definition internal_enabled (s : state) : list label := filter (enabled s) (inte
 Definition quiescent (s : state) : bool := match internal_enabled s with [] => true | _ => false end.
 
 Definition returned (s : state) : bool := match mn s with MReturned _ => true | _ => false end.
+
+(* ------------------------------------------------------------------ a variant for the shutdown: every internal step
+   strictly decreases it, no step other than Spawn increases it (Proofs/Lifecycle.v); it bounds the number of steps the
+   operator still makes by itself, given the tasks that exist *)
+
+Definition all_tasks_of (s : state) : list task := root_tasks ++ TAuth :: TWaiter :: spawned s.
+
+Definition w_phase (p : phase) : nat :=
+  match p with PAbsent => 0 | PWaitFlag => 4 | PRun => 3 | PEnding _ => 2 | PCancelW => 1 | PDone _ => 0 end.
+Definition w_main (m : mphase) : nat :=
+  match m with MWait => 5 | MStopRoots | MCStopRoots => 4 | MWaitHung => 3 | MStopHung | MCStopHung => 2 | MReturned _ => 0 end.
+Definition w_act (a : aphase) : nat :=
+  match a with
+  | AStartup => 10 | AStartupBad => 9 | AFlag => 8 | ASleep => 7 | AWaitRoots => 6 | AStopCore _ => 5
+  | ACleanup => 4 | ACleanupRun => 3 | AEnd => 0
+  end.
+Definition b2n (b : bool) : nat := if b then 0 else 1.      (* 1 while something is still to be done *)
+
+Definition sum_over {A} (f : A -> nat) (l : list A) : nat := fold_right (fun x acc => f x + acc) 0 l.
+
+Definition graces_of (t : task) : list grace :=
+  match t with
+  | TWatcher w => [GExit w]
+  | TDaemon d => [GBackoff d; GAbandon d]
+  | _ => []
+  end.
+
+Definition mu (s : state) : nat :=
+  w_main (mn s) + w_act (act s)
+  + sum_over (fun t => w_phase (ph s t)) (all_tasks_of s)
+  + b2n (swept s) + b2n (ostopped s)
+  + sum_over (fun t => match t with TKeepalive k => b2n (mem_nat k (withdrawn s)) | _ => 0 end) (spawned s)
+  + b2n (mem_grace GHung (graces s))
+  + sum_over (fun t => sum_over (fun g => b2n (mem_grace g (graces s))) (graces_of t)) (spawned s).
+
+(* shutdown has begun: run_tasks is past its FIRST_COMPLETED wait, or some root task is done (so it will be) *)
+Definition shutdown_begun (s : state) : bool :=
+  match mn s with MWait => existsb (fun t => is_done (ph s t)) root_tasks | _ => true end.
+
+(* a deterministic "scheduler": always perform the first enabled internal step *)
+Fixpoint drive (n : nat) (s : state) : state :=
+  match n with
+  | 0 => s
+  | S n' => match internal_enabled s with
+            | l :: _ => match step s l with Some s' => drive n' s' | None => s end
+            | [] => s
+            end
+  end.
+
+(* ------------------------------------------------------------------ decidable equality of labels (harness ties only) *)
+
+Definition hres_eqb (a b : hres) : bool :=
+  match a, b with HOk, HOk | HTemp, HTemp | HPerm, HPerm => true | _, _ => false end.
+
+Definition label_eqb (a b : label) : bool :=
+  match a, b with
+  | StartupOk, StartupOk | StartupFail, StartupFail | Flag, Flag | StopFlag, StopFlag | Cancel, Cancel
+  | MainStop, MainStop | RootsStopped, RootsStopped | HungDone, HungDone | Sweep, Sweep | OrchStop, OrchStop
+  | ActRootsGone, ActRootsGone | CoreStopped, CoreStopped | CleanupBegin, CleanupBegin | CleanupOk, CleanupOk
+  | CleanupFail, CleanupFail | Signal, Signal => true
+  | Spawn t b, Spawn t' b' => task_eqb t t' && task_eqb b b'
+  | Api t, Api t' => task_eqb t t'
+  | Withdraw k, Withdraw k' => Nat.eqb k k'
+  | Fail t, Fail t' => task_eqb t t'
+  | Finish t o, Finish t' o' => task_eqb t t' && outcome_eqb o o'
+  | GraceTimeout g, GraceTimeout g' => grace_eqb g g'
+  | Return r, Return r' => result_eqb r r'
+  | IsDone t o, IsDone t' o' => task_eqb t t' && outcome_eqb o o'
+  | Cancelled t, Cancelled t' => task_eqb t t'
+  | StartupHandler h r, StartupHandler h' r' => Nat.eqb h h' && hres_eqb r r'
+  | _, _ => false
+  end.
+
+(* labels that are the environment's or user code's doing, or pure observations: everything else the operator does by
+   itself and must be one of the internal candidates of the state it happens in *)
+Definition external (l : label) : bool :=
+  match l with
+  | StartupOk | StartupFail | StopFlag | Cancel | Signal | Spawn _ _ | Api _ | Fail _ | CleanupFail
+  | IsDone _ _ | Cancelled _ | StartupHandler _ _ => true
+  | Finish (TDaemon _) OOk => true          (* a daemon returning: user code *)
+  | _ => false
+  end.
+
+(* trace tie for the notion "internal": replay, and require every non-external label to be an internal candidate *)
+Fixpoint internal_ok (s : state) (tr : list label) : bool :=
+  match tr with
+  | [] => true
+  | l :: tr' =>
+      (external l || existsb (label_eqb l) (internal_candidates s)) &&
+      match step s l with Some s' => internal_ok s' tr' | None => false end
+  end.
+
+(* ... and where the real operator was seen to do nothing more by itself, the model must be quiescent *)
+Definition quiescent_after (tr : list label) : bool :=
+  match run init tr with Some s => quiescent s | None => false end.
+Definition driven_to_return (tr : list label) (fuel : nat) : bool :=
+  match run init tr with Some s => returned (drive fuel s) | None => false end.
